@@ -501,6 +501,15 @@ def inverse_map_rule(ctx, lib):
             for x in ast.walk(a.value):
                 if isinstance(x, ast.Name) and x.id not in seen:
                     work.append(x.id)
+            # the names its guards test are needed too (to decide whether the assignment is on the path)
+            q = a
+            while q in parents:
+                p_ = parents[q]
+                if isinstance(p_, ast.If):
+                    for x in ast.walk(p_.test):
+                        if isinstance(x, ast.Name) and x.id not in seen:
+                            work.append(x.id)
+                q = p_
     order = sorted(set(order), key=lambda a: a.lineno)
 
     def guards(n):
